@@ -27,6 +27,10 @@ SPECIAL = [0x0a, 0x0d, 0x22, 0x5c, 0x09, 0x01, 0x1f, 0x7f, 0x28, 0x29, 0x5b, 0x5
 
 def gen_value(rng, depth=0):
     r = rng.random()
+    if depth == 0 and rng.random() < 0.12:
+        # many containers in one value: counts around the sizes at which the restore tables grow
+        n = rng.choice((32, 64, 128, 128, 256, 256, 512, 1024)) + rng.choice((-2, -1, -1, 0, 0, 1))
+        return rng.choice(('wide(%d, %d)', '({ wide(%d, %d) })', '([ "w" : wide(%d, %d) ])')) % (n, rng.randint(0, 2))
     if depth >= 4 or r < 0.45:
         k = rng.random()
         if k < 0.3: return rng.choice(INTS)
@@ -160,10 +164,10 @@ def with_fault(plan, k, info=None):
         dmg, what = text[:pos], 'truncate@%d' % pos
     else:                           # structural-character replacements spread over the text
         dmg, what = _damage(text, min(n, 300) + (j - per // 2) * 37)
-    if len(dmg) > 900: dmg = dmg[:900]
+    if len(dmg) > 800: dmg = dmg[:800]      # the command line must stay below what the driver accepts as one line (about 1.7 KiB of hex)
     q.cycles.append([send(0, 'do call /sv rv %s\r\n' % (dmg.hex() or '20'))])
     q.cycles.append([send(0, 'do call /sv rvraw %s\r\n' % GOOD)])     # a good text restored right after the damaged one
-    q.idle(1)
+    q.idle(1 + len(dmg) // 60)      # a long line takes several reads (the driver asks for a third of the free buffer each time)
     q.opt('c16_fault', 'value:%d:%s' % (idx, what))
     return q
 
@@ -207,6 +211,11 @@ def check_base(plan, res):
             v.append(Violation(PROP, 'roundtrip', 'restore_variable(save_variable(v)) differs: %s' % ' '.join(w[3:])[:200], PROP + '/roundtrip/variable/' + _cls(r)))
         elif w[2] in ('saveerr', 'restoreerr'):
             v.append(Violation(PROP, 'roundtrip', 'round trip of value %s raised: %s' % (w[1], ' '.join(w[2:])[:200]), PROP + '/roundtrip/variable/' + w[2]))
+    nv = int(plan.opts().get('c16_nvals', 0))
+    if len(_recs(res, 'RTV')) != nv or (_recs(res, 'REST') and (len(_recs(res, 'RTG')) != 2 * nv or not _recs(res, 'RTS'))):
+        errs = [e.rest for e in res.events if e.kind == 'R' and e.rest.startswith('ERR ')]
+        v.append(Violation(PROP, 'roundtrip', 'the round-trip comparison did not complete (%d of %d RTV, %d of %d RTG records): %s' %
+                           (len(_recs(res, 'RTV')), nv, len(_recs(res, 'RTG')), 2 * nv, (errs[-1] if errs else 'no error record')[:200]), PROP + '/roundtrip/comparison-aborted'))
     rest = _recs(res, 'REST')
     if rest and 'ret=1' not in rest[-1]:
         v.append(Violation(PROP, 'restore', 'restore_object of a file just written by save_object failed: %s' % rest[-1], PROP + '/roundtrip/object/restore-failed'))
